@@ -54,8 +54,8 @@ Print Assumptions faults_classified.
 (* a connect failure towards the proxy is still a connection error *)
 Theorem proxy_connect_failure_classified :
   CAT Forwarding false "NewConnectionError" = KConnect /\ CAT Forwarding false "ConnectTimeoutError" = KConnect /\
-  CAT Tunnelling false "NewConnectionError" = KConnect /\ CAT Tunnelling false "ConnectTimeoutError" = KConnect.
-Proof. vm_compute. repeat split; reflexivity. Qed.
+  (forall up, CAT (Tunnelling up) false "NewConnectionError" = KConnect /\ CAT (Tunnelling up) false "ConnectTimeoutError" = KConnect).
+Proof. repeat split; try destruct up; vm_compute; reflexivity. Qed.
 Print Assumptions proxy_connect_failure_classified.
 
 (* ---- the loop: for every lattice, tuple set, script, mode, method and Retry ---- *)
@@ -110,15 +110,33 @@ Proof.
 Qed.
 Print Assumptions nonidempotent_not_resent_proxy_refuted.
 
-(* KNOWN FINDING C04-F2: the same through a CONNECT tunnel *)
+(* through a CONNECT tunnel urlopen knows that the tunnel of the attempt is up (source fact) ... *)
+Theorem source_facts : Gen_Urlopen.tunnel_errors_are_not_proxy_errors = Some true.
+Proof. reflexivity. Qed.
+Print Assumptions source_facts.
+
+(* ... and then the model hands `wrap` connected = true whenever the connect of the attempt succeeded, whatever http.client
+   did to the connection meanwhile, so that faults_classified applies: every fault while sending or receiving is a read
+   error.  The history that is re-sent behind a forwarding proxy (C04-F1) is not re-sent through a tunnel: *)
+Theorem tunnel_post_not_resent_after_reset :
+  CAT (Tunnelling true) true "ConnectionResetError" = KRead /\
+  t_wire (run_loop LAT (getl Gen_Urlopen.urlopen_to_sslerror) (getl Gen_Urlopen.urlopen_to_proxyerror)
+                   (getl Gen_Urlopen.urlopen_to_protocolerror) (getl Gen_Urlopen.retry_connection_error)
+                   (getl Gen_Urlopen.retry_read_error) (getl Gen_Retry.retry_after_status_codes)
+                   [mkA COk SOk RReset; mkA COk SOk (RResp 200 None true)] (Tunnelling true) (S!"POST") lib_default)
+  = [mkW true true].
+Proof. split; vm_compute; reflexivity. Qed.
+Print Assumptions tunnel_post_not_resent_after_reset.
+
+(* before fix (Tunnelling false): the same defect as C04-F1 through a CONNECT tunnel *)
 Theorem nonidempotent_not_resent_tunnel_refuted :
-  CAT Tunnelling false "ConnectionResetError" = KOther /\
+  CAT (Tunnelling false) false "ConnectionResetError" = KOther /\
   exists r script,
     method_retryable r (S!"POST") = false /\
     t_wire (run_loop LAT (getl Gen_Urlopen.urlopen_to_sslerror) (getl Gen_Urlopen.urlopen_to_proxyerror)
                      (getl Gen_Urlopen.urlopen_to_protocolerror) (getl Gen_Urlopen.retry_connection_error)
                      (getl Gen_Urlopen.retry_read_error) (getl Gen_Retry.retry_after_status_codes)
-                     script Tunnelling (S!"POST") r)
+                     script (Tunnelling false) (S!"POST") r)
     = [mkW true true; mkW true true].
 Proof.
   split; [vm_compute; reflexivity|].
